@@ -38,6 +38,13 @@ second is well-formed (resp. wholly known) — C08 proves the TYPE of a conversi
 but not that the outcome is a well-formed value again.  The former witnesses are kept as
 `…_witness_fixed` (and as harness cases that must pass); the full statements stay as
 `def`s: not proved in that generality, searched by the harness on every run.
+
+Fuel (d09): `unifyTyF` is stable from `2·depth + 2` activations on and `unifyTy` (what `Env.std` runs)
+is its value at every sufficient fuel and a fixed point of one activation (`fuel_monotone_partial`,
+`fuel_enough`, `unify_type_fixpoint`; below the bound more fuel CAN change an answer:
+`fuel_monotone_counterexample`); the full model `unifyF` needs two activations (`unify_fuel_two`).
+`UnifyLaws` and `SetLaws` are proved of the environment the C09 driver runs (`unifyLaws_driver`,
+`setLaws_driver`, `…_driver` corollaries).
 -/
 import CtyModel.Lemmas.UnifyTyLaws
 import CtyModel.Lemmas.UnifyProps
@@ -45,6 +52,9 @@ import CtyModel.Lemmas.UnifyNoPanic
 import CtyModel.Lemmas.UnifyTopo
 import CtyModel.Lemmas.UnifyUnsafe
 import CtyModel.Lemmas.UnifyFlat
+import CtyModel.Lemmas.d09Fuel
+import CtyModel.Lemmas.d09Fuel2
+import CtyModel.Lemmas.ConvertD08SetEnv
 namespace CtyModel
 namespace C09
 open Convert Ty Unify
@@ -776,6 +786,180 @@ theorem no_panic_applied_slots_wt_partial (E : Env) (hU : UnifyLaws E) (hS : Set
     (fun f s out e h1 =>
       let w := first_step_well_typed E hU fuel' uns t c v hrel hv hT f s out e h1
       ⟨w.1, w.2 hk⟩)
+
+/-! ## Fuel: the type result of `unify` as a total function of the type list
+
+`unifyTyF n` (ConvertUnify) is indexed by fuel because `unify` and `getConversion` call each
+other; out of fuel answers `none`, which is also the answer NilType.  The clauses above that
+speak of `unifyTyF fuel` / `unifyTy` (`unify_equal_types_ty`, `unsafe_of_safe_flat`,
+`unify_result_reachable_flat`, `unifyLaws_std`) are tied to ONE function of the type list by the
+theorems of this section (Lemmas/d09Fuel.lean): from `2·depth + 2` activations on the answer no
+longer depends on the fuel, `fuelFor ts` (what `unifyTy`, the `Env.unify` of the drivers, uses)
+is at least that, and `unifyTy` satisfies the fuel-free recursion equation of unify.go. -/
+
+/-- Full statement "more fuel never changes an answer that is a type": FALSE of the model
+below the bound — a nested call that runs out of fuel answers NilType, which switches a
+fallback on (here: the element-wise object unification inside the tuple-as-list path fails for
+lack of fuel and the list type itself wins; with one more activation the attributes unify as
+a map). -/
+def FuelMonotone : Prop :=
+  ∀ (n : Nat) (uns : Bool) (ts : List Ty) (t : Ty), unifyTyF n uns ts = some t → unifyTyF (n + 1) uns ts = some t
+
+def fuelWitnessTys : List Ty :=
+  [.list (.object ["a"] [.string] [false]), .tuple [.object ["a", "b"] [.string, .number] [false, false]]]
+
+theorem fuel_monotone_counterexample :
+    unifyTyF 3 false fuelWitnessTys = some (.list (.object ["a"] [.string] [false])) ∧
+    unifyTyF 4 false fuelWitnessTys = some (.list (.map .string)) ∧
+    unifyTy false fuelWitnessTys = some (.list (.map .string)) ∧ 2 * tyDepthL fuelWitnessTys + 2 = 6 :=
+  ⟨rfl, rfl, rfl, rfl⟩
+
+theorem fuelMonotone_false : ¬ FuelMonotone := by
+  intro h
+  have := h 3 false fuelWitnessTys _ fuel_monotone_counterexample.1
+  rw [fuel_monotone_counterexample.2.1] at this
+  simp at this
+
+/-- FUEL STABILITY (what holds): with at least `2·depth + 2` activations — depth = nesting depth
+of the deepest input type — more fuel never changes the answer, a type or NilType. -/
+theorem fuel_monotone_partial (uns : Bool) (ts : List Ty) (n m : Nat) (h : 2 * tyDepthL ts + 2 ≤ n) (hm : n ≤ m) :
+    unifyTyF m uns ts = unifyTyF n uns ts :=
+  unifyTyF_stable_le uns ts h hm
+
+/-- `fuelFor ts` always suffices: at every sufficient fuel `unifyTyF` answers what `unifyTy` — the
+`Env.unify` of `Env.std`, which the drivers run — answers. -/
+theorem fuel_enough (uns : Bool) (ts : List Ty) (n : Nat) (h : 2 * tyDepthL ts + 2 ≤ n) :
+    unifyTyF n uns ts = unifyTy uns ts ∧ 2 * tyDepthL ts + 2 ≤ fuelFor ts :=
+  ⟨unifyTyF_eq_unifyTy uns ts h, by simp only [fuelFor]; omega⟩
+
+/-- The fuel-free reading of unify.go: `unifyTy` is a fixed point of one activation of `unify` in
+which every nested `unify(…)` call — `ty, _ := unify(elemTypes)`, the re-entry of
+unifyTuplesAsList / unifyObjectsAsMaps, and the `unify` the conversions consult — is `unifyTy` again. -/
+theorem unify_type_fixpoint (uns : Bool) (ts : List Ty) : unifyTy uns ts = Convert.unifyStep unifyTy uns ts :=
+  unifyTy_fixpoint uns ts
+
+/-- The unified type is never nested more deeply than the deepest input (the invariant that
+bounds the re-entry with the list / map type swapped in). -/
+theorem unify_type_depth (uns : Bool) (ts : List Ty) (t : Ty) (h : unifyTy uns ts = some t) :
+    tyDepth t ≤ tyDepthL ts :=
+  unifyTy_depth uns ts t h
+
+/-- `unify_equal_types_ty` without fuel -/
+theorem unify_equal_types_std (uns : Bool) (t : Ty) (n : Nat) (hn : 0 < n) (hw : t.wf = true) (ho : t.hasOpt = false) :
+    unifyTy uns (List.replicate n t) = some t := by
+  rw [← unifyTyF_eq_unifyTy uns _ (n := 2 * tyDepthL (List.replicate n t) + 2) (Nat.le_refl _)]
+  exact unifyTyF_same _ uns t n (by rw [tyDepthL_replicate t n hn]; omega) hn hw ho
+
+/-- `unify_result_reachable_flat` without fuel: the unified type of flat types is flat and every
+input `Equals` it or converts to it, whatever the environment. -/
+theorem unify_result_reachable_flat_std (uns : Bool) (ts : List Ty) (t : Ty)
+    (hf : ∀ x ∈ ts, flat x = true) (h : unifyTy uns ts = some t) :
+    flat t = true ∧ ∀ x ∈ ts, x.equals t = true ∨ ∀ E : Env, (gck E x t uns).isSome = true :=
+  (flat_main (fuelFor ts)).1 uns ts t hf h
+
+example : unifyTy false fuelWitnessTys = unifyTyF 6 false fuelWitnessTys := (fuel_enough false _ 6 (by decide)).1.symm
+example : unifyTy true [.map (.tuple [.string, .bool]), .map (.tuple [.string, .bool])] = some (.map (.tuple [.string, .bool])) :=
+  unify_equal_types_std true _ 2 (by decide) (by decide) (by decide)
+
+/-- The fuel of the FULL model (unified type and conversions): two activations always suffice —
+`unify` re-enters itself with its conversions used only from unifyTuplesAsList / unifyObjectsAsMaps,
+on a list of list (map) types and placeholders, where the next activation never re-enters.  So
+every clause above that is stated "for every fuel" of `unifyF` is a statement about the ONE outcome
+`unifyF E 2 uns types` (the drivers run fuel 4), for every environment, mode and list of types. -/
+theorem unify_fuel_two (E : Env) (n : Nat) (uns : Bool) (types : List Ty) :
+    unifyF E (n + 2) uns types = unifyF E 2 uns types :=
+  unifyF_two E n uns types
+
+/-- e.g. `nil_iff_equal_partial` and `convs_length` read without fuel -/
+theorem nil_iff_equal_fuel_free (E : Env) (n : Nat) (uns : Bool) (types : List Ty) (t : Ty) (cs : Convs)
+    (hw : ∀ ty ∈ types, ty.wf = true) (h : unifyF E (n + 2) uns types = .ok (some (t, cs))) :
+    unifyF E 2 uns types = .ok (some (t, cs)) ∧ cs.length = types.length ∧
+      nilIffEqual t types (nilFlags cs) = true := by
+  rw [unify_fuel_two] at h
+  exact ⟨h, convs_length E 2 uns types t cs h, nil_iff_equal_partial E 2 uns types t cs hw h⟩
+
+example : unifyF (Env.std Env.simple) 4 true [.list .string, .tuple [.string], .dyn] =
+    unifyF (Env.std Env.simple) 2 true [.list .string, .tuple [.string], .dyn] := unify_fuel_two _ 2 _ _
+
+/-! ## Absent iff equal, UNSAFE mode, placeholder members present
+
+`nil_iff_equal_at` holds for either mode and any list; here it is spelled out for `UnifyUnsafe`
+next to placeholder members — the lists on which unifyTuplesAsList gives up after the
+re-unification with the swapped-in list type answered DynamicPseudoType (`unify` then runs its
+preference loop, which must see the ORIGINAL tuple types: the model's `reunify` works on a copy,
+as unify.go's `listed` does; a seeded change that swaps in place and does not restore on that
+path makes the conversions of the tuple inputs disappear). -/
+
+/-- For every input of `UnifyUnsafe` that is not the placeholder itself — whatever else is in
+the list, bare placeholders included — the conversion is absent iff the input equals the result. -/
+theorem nil_iff_equal_unsafe_at (E : Env) (fuel : Nat) (types : List Ty) (t : Ty) (cs : Convs) (i : Nat)
+    (ty : Ty) (c : Option UConv) (hw : ty.wf = true) (hd : ty.isDyn = false)
+    (h : unifyUnsafe E fuel types = .ok (some (t, cs))) (hi : types[i]? = some ty) (hc : cs[i]? = some c) :
+    c = none ↔ ty.equals t = true :=
+  nil_iff_equal_at E fuel true types t cs i ty c hw hd h hi hc
+
+/-- the lists of the seeded change, on the model the drivers run: `UnifyUnsafe([list(string),
+tuple(string), dynamic])` and `UnifyUnsafe([dynamic, tuple(string), list(string), tuple(string,
+number)])` are `list(string)`, and exactly the `list(string)` input has no conversion -/
+theorem nil_iff_equal_unsafe_placeholder_witness :
+    (unifyUnsafe (Env.std Env.simple) 2 [.list .string, .tuple [.string], .dyn]).map
+        (fun o => o.map fun r => (r.1, nilFlags r.2)) = .ok (some (.list .string, [true, false, false])) ∧
+    (unifyUnsafe (Env.std Env.simple) 2 [.dyn, .tuple [.string], .list .string, .tuple [.string, .number]]).map
+        (fun o => o.map fun r => (r.1, nilFlags r.2)) = .ok (some (.list .string, [false, false, true, false])) ∧
+    nilIffEqual (.list .string) [.dyn, .tuple [.string], .list .string, .tuple [.string, .number]]
+      [false, false, true, false] = true :=
+  ⟨rfl, rfl, by decide⟩
+
+/-- … and the conversion handed to the tuple really yields the unified type -/
+example : applyU (Env.std Env.simple) 8
+    (.plan (.wrap (.list .string) (.tupToList [.nil] true))) ⟨.tuple [.string], .seq [.s "b"]⟩ =
+      .ok ⟨.list .string, .seq [.s "b"]⟩ := rfl
+
+/-! ## The environment the C09 driver runs
+
+The theorems above hold for every `E` with `UnifyLaws E` (and `SetLaws E` where members of sets are
+hashed).  Both laws are PROVED of the environment the correspondence driver diffs against the real
+code on every run (`Driver/HUnify.lean: unEnv = Env.std (Env.concrete unifyTy)` — `unify` is
+`unifyTy`, hash / equivalence / order of set members are C08's transliterations of Value.Hash,
+Equals and the set ordering), so the applied-conversion clauses are statements about that model. -/
+
+/-- the environment of `Driver/HUnify.lean` -/
+def driverEnv : Env := Env.std (Env.concrete unifyTy)
+
+theorem unifyLaws_driver : UnifyLaws driverEnv := unifyLaws_std _
+
+theorem setLaws_driver : SetLaws driverEnv where
+  hash_ok := (setLaws_concrete unifyTy).hash_ok
+  equiv_ok := (setLaws_concrete unifyTy).equiv_ok
+
+/-- `convs_yield_unified_slots_wt_partial` for the driver's environment -/
+theorem convs_yield_unified_driver (n fuel' : Nat) (uns : Bool) (types : List Ty) (t : Ty) (cs : Convs) (i : Nat)
+    (c : UConv) (v r : Value) (ht : plainTy t = true)
+    (h : unifyF driverEnv (n + 2) uns types = .ok (some (t, cs))) (hc : cs[i]? = some (some c))
+    (hi : types[i]? = some v.ty) (hv : Value.wt v = true) (hT : ∀ m ∈ stepTargets c, plainTy m = true)
+    (ha : applyU driverEnv fuel' c v = .ok r) : r.ty = t ∧ yieldsUnified t r = true :=
+  convs_yield_unified_slots_wt_partial driverEnv unifyLaws_driver (n + 2) fuel' uns types t cs i c v r ht h hc hi hv hT ha
+
+/-- `safe_convs_total_slots_wt_partial` for the driver's environment -/
+theorem safe_convs_total_driver (n fuel' : Nat) (types : List Ty) (t : Ty) (cs : Convs) (i : Nat) (c : UConv)
+    (v : Value) (ht : plainTy t = true) (h : unify driverEnv (n + 2) types = .ok (some (t, cs)))
+    (hc : cs[i]? = some (some c)) (hi : types[i]? = some v.ty) (hv : Value.wt v = true)
+    (hk : Payload.whollyKnown v.v = true) (hT : ∀ m ∈ stepTargets c, plainTy m = true) :
+    (∃ r, applyU driverEnv fuel' c v = .ok r ∧ r.ty = t) ∨ applyU driverEnv fuel' c v = .unmodelled :=
+  safe_convs_total_slots_wt_partial driverEnv unifyLaws_driver setLaws_driver (n + 2) fuel' types t cs i c v ht h hc hi hv hk hT
+
+/-- `no_panic_applied_slots_wt_partial` for the driver's environment -/
+theorem no_panic_applied_driver (n fuel' : Nat) (uns : Bool) (types : List Ty) (t : Ty) (cs : Convs) (i : Nat)
+    (c : UConv) (v : Value) (ht : plainTy t = true)
+    (h : unifyF driverEnv (n + 2) uns types = .ok (some (t, cs))) (hc : cs[i]? = some (some c))
+    (hi : types[i]? = some v.ty) (hv : Value.wt v = true) (hk : Payload.whollyKnown v.v = true)
+    (hT : ∀ m ∈ stepTargets c, plainTy m = true) : (applyU driverEnv fuel' c v).isPanic = false :=
+  no_panic_applied_slots_wt_partial driverEnv unifyLaws_driver setLaws_driver (n + 2) fuel' uns types t cs i c v ht h hc hi hv hk hT
+
+/-- the hypotheses are jointly satisfiable on the driver's environment: the composed closure of the
+former witness, its step targets placeholder-free -/
+example : (unify driverEnv 4 totalWitnessTys).map (fun o => o.map fun r => (r.1, r.2[0]?)) =
+    .ok (some (.list (.list .string), some (some totalWitnessConv))) := rfl
 
 end C09
 end CtyModel
